@@ -505,6 +505,9 @@ func (w *Walker) extResult(id string, f *types.Func, recv *Term, args []*Term, n
 		t := mkTerm(KCall, "slices.Index", args...)
 		return []*Term{t}
 	}
+	if id == "ext:time.Since" && len(args) == 1 {
+		return append([]*Term{mkTerm(KCall, "time.Since", args...)}, manyFresh(nres-1)...)
+	}
 	if (id == "ext:time.Time.UnixNano" || id == "ext:time.Time.Sub" || id == "ext:time.Time.IsZero") && recv != nil {
 		t := mkTerm(KCall, strings.TrimPrefix(id, "ext:"), append([]*Term{recv}, args...)...)
 		return append([]*Term{t}, manyFresh(nres-1)...)
@@ -663,10 +666,13 @@ func (w *Walker) callInternal(call *ast.CallExpr, fn *FuncInfo, st *State, nres 
 			for _, k := range cl.killList() {
 				loc := k.loc
 				if strings.HasPrefix(loc, "recv.") || loc == "recv" {
-					if recvLoc == "" {
+					if recvs[i] == rootRecv {
+						// same receiver object: locations coincide
+					} else if recvLoc == "" {
 						continue
+					} else {
+						loc = recvLoc
 					}
-					loc = recvLoc
 				}
 				applyKill(ns, loc, k.kind, nil)
 			}
